@@ -11,6 +11,8 @@ import (
 	"crypto/sha256"
 	"encoding/hex"
 	"fmt"
+	"io"
+	"net/http"
 	"runtime/debug"
 	"sort"
 	"strings"
@@ -1128,7 +1130,16 @@ func (r *run) replay() {
 		}
 		env := newHEnv(r.c.Rng)
 		defer env.close()
+		// once on a cold client, then again on its now warm keep-alive connection (where the
+		// transport may re-send a request the server hung up on)
 		msg := r.runH(env, &h, true)
+		if resp, err := http.Get(env.dh.srv.URL + "/providers"); err == nil { // leaves an idle keep-alive connection
+			_, _ = io.Copy(io.Discard, resp.Body)
+			resp.Body.Close()
+		}
+		if m2 := r.runH(env, &h, false); msg == "" {
+			msg = m2
+		}
 		fmt.Println("replay", hSig(&h))
 		if msg != "" {
 			fmt.Println("ORACLE-FAIL:", msg)
